@@ -62,6 +62,10 @@ type World struct {
 	RetireOrder func([]string) []string
 	// DeleteDescending reverses the (otherwise ascending) order in which vacuum deletes objects.
 	DeleteDescending bool
+	// FrozenClock: reading the logical clock does not advance it; time only moves with SetClock. Every version
+	// created within one event then carries exactly the event's (whole-second) time, which makes "created exactly
+	// at the cutoff" reachable for cutoffs of second resolution.
+	FrozenClock bool
 
 	active string // name of the client that runs (see SharedEndpoint)
 
@@ -175,7 +179,9 @@ func (w *World) readClock() (time.Time, bool) {
 		return time.Time{}, false
 	}
 	t := w.now
-	w.now = w.now.Add(time.Microsecond)
+	if !w.FrozenClock {
+		w.now = w.now.Add(time.Microsecond)
+	}
 	return t, true
 }
 
